@@ -1,6 +1,7 @@
 package main
 
 import (
+	"sort"
 	"os"
 	"fmt"
 	"go/ast"
@@ -597,7 +598,20 @@ func (r *UnitRun) staticCallee(n *ast.CallExpr) *Unit {
 	return nil
 }
 
-func (r *UnitRun) havocLoop(st *State, m *modSet, extraNames []string, n ast.Node) {
+func (r *UnitRun) havocLoop(st *State, m *modSet, extraNames []string, n ast.Node) (written map[*Obj]bool) {
+	written = map[*Obj]bool{}
+	before := make(map[*Obj]string, len(st.arrs))
+	for o, a := range st.arrs {
+		before[o] = a
+	}
+	defer func() {
+		// the objects whose elements the loop may write: exactly those whose contents were made unknown here
+		for o, a := range st.arrs {
+			if b, ok := before[o]; ok && b != a {
+				written[o] = true
+			}
+		}
+	}()
 	for obj := range m.vars {
 		cur, ok := st.vars[obj]
 		if !ok {
@@ -672,6 +686,7 @@ func (r *UnitRun) havocLoop(st *State, m *modSet, extraNames []string, n ast.Nod
 			st.ghost[name] = r.havocVal(st, g, g.Go, name)
 		}
 	}
+	return written
 }
 
 func (r *UnitRun) havocVal(st *State, cur Val, t types.Type, base string) Val {
@@ -774,7 +789,11 @@ func (r *UnitRun) execFor(st *State, s *ast.ForStmt, k func(*State)) {
 		st.snapshotPre(n)
 		r.checkInvs(st, ls, n, "init", s, nil)
 		ms := r.loopModSet(s.Body, s.Post, s.Cond)
-		r.havocLoop(st, ms, ls.Mod, s)
+		written := r.havocLoop(st, ms, ls.Mod, s)
+		headFrozen := make(map[*Obj]bool, len(st.frozen))
+		for o, f := range st.frozen {
+			headFrozen[o] = f
+		}
 		r.assumeInvs(st, ls, n)
 		depth := len(st.loops)
 		var cond string = "true"
@@ -794,6 +813,7 @@ func (r *UnitRun) execFor(st *State, s *ast.ForStmt, k func(*State)) {
 		endIter := func(s2 *State) {
 			s2.loops = s2.loops[:depth]
 			fin := func(s3 *State) {
+				r.checkPublishedInLoop(s3, written, headFrozen, n, s)
 				r.checkInvs(s3, ls, n, "step", s, nil)
 				v1 := r.variant(s3, ls, n)
 				for i := range v1 {
@@ -866,7 +886,11 @@ func (r *UnitRun) execRange(st *State, s *ast.RangeStmt, k func(*State)) {
 	}
 	st.snapshotPre(n)
 	r.checkInvs(st, ls, n, "init", s, auto(st))
-	r.havocLoop(st, ms, ls.Mod, s)
+	written := r.havocLoop(st, ms, ls.Mod, s)
+	headFrozen := make(map[*Obj]bool, len(st.frozen))
+	for o, f := range st.frozen {
+		headFrozen[o] = f
+	}
 	setIdx(st, r.fresh("loop_"+ghostName, "Int"))
 	st.assume(auto(st)[0])
 	r.assumeInvs(st, ls, n)
@@ -890,6 +914,7 @@ func (r *UnitRun) execRange(st *State, s *ast.RangeStmt, k func(*State)) {
 	endIter := func(s2 *State) {
 		s2.loops = s2.loops[:depth]
 		setIdx(s2, add(i0, "1"))
+		r.checkPublishedInLoop(s2, written, headFrozen, n, s)
 		r.checkInvs(s2, ls, n, "step", s, auto(s2))
 	}
 	body.loops = append(body.loops[:depth:depth], &loopCtx{
@@ -991,7 +1016,7 @@ func (r *UnitRun) execTypeSwitch(st *State, s *ast.TypeSwitchStmt, k func(*State
 		hit, miss := r.fork(cur, or(conds...), fmt.Sprintf("tcase@%d", r.prog.Fset.Position(cc.Pos()).Line))
 		if bindName != nil && len(cc.List) == 1 {
 			if obj := r.info.Implicits[cc]; obj != nil {
-				hit.bind(obj, bound)
+				hit.bind(obj, r.lenFact(hit, bound)) // a slice held by the interface value has a non-negative length
 			}
 		}
 		hit.loops = append(hit.loops[:depth:depth], brk)
@@ -1140,5 +1165,23 @@ func (r *UnitRun) haveClauses(st *State, vals []Val, n *ast.ReturnStmt, early bo
 			}
 			r.haveDone[i] = true
 		}()
+	}
+}
+
+// checkPublishedInLoop: the body of a loop is verified from an arbitrary iteration's state, in which the set of published
+// (frozen) slices is the one at the loop head. A slice that exists before the loop, is written by the loop and is
+// published inside the body (stored as a value into an interface, another slice or a tensor) would be written again by
+// the next iteration - visible through the stored value, which the value model does not track: that is refused.
+func (r *UnitRun) checkPublishedInLoop(st *State, written, headFrozen map[*Obj]bool, n int, node ast.Node) {
+	var names []string
+	for o, f := range st.frozen {
+		if f && !headFrozen[o] && written[o] {
+			names = append(names, o.name)
+		}
+	}
+	sort.Strings(names)
+	for _, nm := range names {
+		r.obligeStatic(st, "frame", fmt.Sprintf("loop%d.published.%s", n, sanitize(nm)), false, node,
+			"slice "+nm+" exists before the loop, is written by the loop and is published (stored as a value) inside it: a later iteration would write through the stored value")
 	}
 }
